@@ -1332,7 +1332,8 @@ impl<D: AsyncDB, M: MakeConnection<Conn = D>> Runner<D, M> {
                 continue;
             }
 
-            let db_name = filename.replace([' ', '.', '-', '/'], "_");
+            // the index keeps apart names that differ only in the replaced characters
+            let db_name = format!("{}_{idx}", filename.replace([' ', '.', '-', '/'], "_"));
 
             self.conn
                 .run_default(&format!("CREATE DATABASE {db_name};"))
